@@ -253,6 +253,9 @@ fn drift(sc: &Value, exp: &Value, rec: &Value) -> Vec<&'static str> {
             if f["path"] == "se" || f["path"] == "s" {
                 continue;
             }
+            if f["kind"] == "chr" {
+                continue; // the content of a character device is not recorded
+            }
             let of = rec["files1"].as_array().unwrap().iter().find(|x| x["path"] == f["path"]);
             if of.map(|x| (&x["kind"], &x["data"])) != Some((&f["kind"], &f["data"])) {
                 d.push("files");
